@@ -57,6 +57,11 @@ def install_lock(p):
                   "in every interleaving (meta-theorem, not re-proved); reads of unprotected flags are arbitrary within their stable predicate")
 
 
+def setattr_backend(tracker_obj, supports_callback):
+    """Fix `supports_retrieve_callback` of the backend of the Parallel object a tracker belongs to."""
+    tracker_obj.fields["parallel"].fields["_backend"].attrs["supports_retrieve_callback"] = supports_callback
+
+
 def build():
     p = Pack("PAR1", files=[PAR, "joblib/_parallel_backends.py", "joblib/_utils.py"])
     install_common(p)
@@ -165,6 +170,56 @@ def build():
             ensures={"returns_registered_result": "same(result, RESULT0)", "was_done": "self.status == 'Done'", "result_released": "not hasattr(self, '_result')"},
             exsures={"KeyError": {"the_registered_exception_itself": "same(exc, RESULT0)", "was_error": "self.status == 'Error'", "result_released": "not hasattr(self, '_result')"}},
         ))
+
+    # ---- get_result: the result registered by the callback thread, or (backends without a retrieval callback) a synchronous retrieval that
+    # waits at most `timeout` - whatever the retrieval raises (the task's exception, TimeoutError) becomes the registered error and is raised
+    def retrieve_sync(interp, recv, args, kwargs):
+        interp.ctx.events.append(("retrieve_result", args[0], kwargs.get("timeout", "missing")))
+        k = interp.ctx.choose(3, "sync-retrieval")
+        if k == 1:
+            interp.raise_("ValueError")      # the task's own exception
+        if k == 2:
+            interp.raise_("KeyError")        # stands for the backend's timeout error (multiprocessing / concurrent.futures TimeoutError): the wait exceeded `timeout`
+        r = Res.fresh(interp.ctx, "res")
+        interp.ctx.ghost["SYNC_RESULT"] = r
+        return r
+
+    p.models["backend.retrieve_result"] = retrieve_sync
+
+    def reg_outcome_summary(interp, recv, args, kwargs):
+        # summary of _register_outcome (contract above) for a pending tracker: status and result registered
+        out = args[0]
+        recv.fields["status"] = out.d["status"]
+        recv.fields["_result"] = out.d["result"]
+        interp.ctx.events.append(("register_outcome", out.d["status"], out.d["result"]))
+
+    for cb in (True, False):
+        p.add(Contract(
+            PAR, "BatchCompletionCallBack.get_result", variant="callback-backend" if cb else "synchronous-backend", props=["C01", "C04"],
+            params=dict(self=(with_result("ok") if cb else tracker(status=OneOf(PENDING))), timeout=Opt(REAL)),
+            setup=(lambda interp, env: setattr_backend(env.lookup("self"), True)) if cb else (lambda interp, env: setattr_backend(env.lookup("self"), False)),
+            inline={"_return_or_raise"},
+            ensures=({"returns_registered_result": "same(result, RESULT0)"} if cb else {"returns_what_the_backend_retrieved": "same(result, SYNC_RESULT)"}),
+            ensures_body=({"no_synchronous_retrieval": "n_events('retrieve_result') == 0"} if cb else
+                          {"waits_at_most_the_callers_timeout": "n_events('retrieve_result') == 1 and ev_named('retrieve_result')[0][2] is timeout and ev_named('retrieve_result')[0][1] is self.job",
+                           "outcome_registered_once": "n_events('register_outcome') == 1"}),
+            exsures=({} if cb else {"ValueError": {"registered_as_error": "n_events('register_outcome') == 1 and ev_named('register_outcome')[0][1] == 'Error'"},
+                                     "KeyError": {"registered_as_error": "n_events('register_outcome') == 1 and ev_named('register_outcome')[0][1] == 'Error'",
+                                                      "only_with_a_timeout_request": "n_events('retrieve_result') == 1"}}),
+        ))
+    p.models["BatchCompletionCallBack._register_outcome"] = reg_outcome_summary
+
+    # ---- _register_new_job: ordered mode queues in submission order, completion-order mode only records the dispatched job
+    def holding_the_lock(interp, env):
+        interp.ctx.lock_depth["plock"] = 1   # called from _dispatch / dispatch_one_batch inside `with self._lock` (obligations guarded-by._lock there)
+
+    p.add(Contract(
+        PAR, "Parallel._register_new_job", props=["C01", "C16"], setup=holding_the_lock,
+        params=dict(self=parallel(_jobs_set=OpaqueOf("jobsset")), batch_tracker=tracker()),
+        ensures={},
+        ensures_body={"ordered_mode_queues_the_job": "n_events('jobs.append') == (1 if self.return_ordered else 0) and all(e[1] is batch_tracker for e in ev_named('jobs.append'))",
+                      "completion_order_mode_records_it_as_dispatched": "n_events('jobs_set.add') == (0 if self.return_ordered else 1) and all(e[1] is batch_tracker for e in ev_named('jobs_set.add'))"},
+    ))
 
     # ---- __call__ (completion callback): stale or aborting callbacks do nothing; otherwise retrieve, register, then dispatch one more
     def retrieve_cb(interp, recv, args, kwargs):
@@ -328,6 +383,37 @@ def build():
         ensures_body={"each_item_called_once_in_order": "[e[1] for e in ev_named('task-run')] == [0, 1, 2]"},
         note="shape-bounded: a batch of exactly 3 items (list comprehension unrolled); the comprehension itself is Python's",
     ))
+
+    # ---- BatchedCalls: construction, length, and the form in which a batch travels to a worker process
+    three_items = lambda i: PyList([(Opaque("task%d" % k, None), (), PyDict({})) for k in range(3)])
+    for as_tuple in (True, False):
+        p.add(Contract(
+            PAR, "BatchedCalls.__init__", variant="backend-with-n_jobs" if as_tuple else "bare-backend", props=["C01", "C15"],
+            params=dict(self=lambda i: SObj("BatchedCalls", {}), iterator_slice=three_items,
+                        backend_and_jobs=(lambda i: (Opaque("nested", None), Opt(INT).fresh(i.ctx, "nj"))) if as_tuple else (lambda i: Opaque("nested", None, isinstance=())),
+                        reducer_callback=Opt(OpaqueOf("reducercb")), pickle_cache=OneOf(None, PyDict({}))),
+            ensures={"holds_exactly_the_slice_in_order": "len(self.items) == 3 and all(self.items[k][0] is iterator_slice[k][0] for k in (0, 1, 2))",
+                     "size_is_the_number_of_tasks": "self._size == 3",
+                     "nested_backend_and_its_n_jobs": ("self._backend is backend_and_jobs[0] and self._n_jobs is backend_and_jobs[1]" if as_tuple
+                                                       else "self._backend is backend_and_jobs and self._n_jobs is None")},
+            note="shape-bounded: a slice of exactly 3 tasks",
+        ))
+    p.add(Contract(
+        PAR, "BatchedCalls.__len__", props=["C01", "C09"],
+        params=dict(self=ObjOf("BatchedCalls", _size=INT)),
+        ensures={"the_size_recorded_at_construction": "result == self._size"},
+    ))
+    p.models["reducercb.__call__"] = lambda i, fv, a, k: i.ctx.events.append(("reducer_callback",))
+    p.add(Contract(
+        PAR, "BatchedCalls.__reduce__", props=["C01"],
+        globals={"BatchedCalls": lambda interp: Opaque("BatchedCallsClass", None)},
+        params=dict(self=ObjOf("BatchedCalls", items=three_items, _size=3, _backend=OpaqueOf("nested"), _n_jobs=Opt(INT), _reducer_callback=Opt(OpaqueOf("reducercb")),
+                               _pickle_cache=PyDict({}))),
+        ensures={"rebuilt_in_the_worker_with_the_same_tasks_and_nested_backend":
+                 "is_tag(result[0], 'BatchedCallsClass') and result[1][0] is self.items and result[1][1][0] is self._backend and result[1][1][1] is self._n_jobs and result[1][2] is None"},
+        ensures_body={"reducers_installed_before_pickling": "n_events('reducer_callback') == (0 if self._reducer_callback is None else 1)"},
+    ))
+    p.spec_funcs["is_tag"] = lambda interp, o, tag: isinstance(o, Opaque) and o.tag == tag
 
     # ---- eval_expr / eval_: arithmetic only (structural recursion on the ast node datatype; own contract = induction hypothesis)
     def node_kind(interp):
